@@ -39,13 +39,13 @@ def main():
     farm = Farm(n=8)
     try:
         if cmd == "twice":
-            r1 = execute_case(farm, case, "a")
-            r2 = execute_case(farm, case, "b")
+            case1, r1 = execute_case(farm, case, "a", mod)
+            _, r2 = execute_case(farm, case, "b", mod)
             print(fingerprint(case, r1), fingerprint(case, r2))
             for d in _diff(r1, r2)[:20]:
                 print(str(d)[:600])
         elif cmd == "show":
-            r1 = execute_case(farm, case, "a")
+            case, r1 = execute_case(farm, case, "a", mod)
             print(json.dumps(case, indent=1)[:6000])
             for vi, r in enumerate(r1):
                 if "error" in r:
